@@ -265,10 +265,14 @@ where
             // avoids `0 / 0` when no weight has been accumulated yet.
             continue;
         }
+        let prev_weight_sum = weight_sum;
         weight_sum += w;
         let x_minus_mean = x - mean;
-        mean += (w / weight_sum) * x_minus_mean;
-        s += w * x_minus_mean * (x - mean);
+        let mean_increment = (w / weight_sum) * x_minus_mean;
+        mean += mean_increment;
+        // West's update of the sum of squares: `mean_increment` has the sign of
+        // `x_minus_mean`, so every term added to `s` is non-negative.
+        s += prev_weight_sum * mean_increment * x_minus_mean;
     }
     Ok(s / (weight_sum - ddof))
 }
